@@ -37,7 +37,12 @@ def check(run):
                        "a section whose body is only an unlabelled bracketed external link ([http://x], printed as a number) is not in the "
                        "grammar: the cleaner documents it as empty",
                        "the universal statement about the composition of ALL passes is decided by exploration, not by proof (proved: the "
-                       "idioms, the generic edit passes, fix_paragraphs, the breaking-return loop, fix_nesting and any sequence of those)"]
+                       "idioms, the generic edit passes - visited node dissolved/pruned: remove_list_only_paragraphs, remove_textless_styles, "
+                       "remove_invisible_links / any prune pass; visited node edits selected CHILDREN (C07/ModelPasses2.v child_pass): "
+                       "remove_leading_para_in_list, restrict_children, remove_empty_training_table_rows; attribute-only passes "
+                       "(clean_vlist, mark_infoboxes, mark_short_paragraph, fix_math_dir) are the identity on the heap -, fix_paragraphs, "
+                       "the breaking-return loop, fix_nesting and any sequence of those; the classification of all 58 passes is in "
+                       "coq/C07/ProofsPasses2.v)"]
     src = core.snapshot()
     def gen():          # coq/C07 imports coq/C06, whose generated files are git-ignored
         __import__("vt.gen.c06_api", fromlist=["x"]).generate(src)
